@@ -95,7 +95,7 @@ func (env *specEnv) eval(e SExpr) Val {
 		case VStr:
 			return VInt{seqAt(b, i)}
 		case VCellSeq:
-			return fc.decodeCell(sel(b.Arr, add(b.Off, i)), b.Elem, T{}, T{})
+			return fc.decodeElem(sel(b.Arr, add(b.Off, i)), b.Elem, T{}, T{})
 		case VSlice:
 			if isByteElem(b.Elem) {
 				return VInt{sel(sel(env.st.heap, b.Rgn), add(b.Off, i))}
